@@ -178,6 +178,15 @@ def run_case(base, case, acc):
         shape = h([name, sorted((desc or {}).keys()) if isinstance(desc, dict) else None, (desc or {}).get("form") if isinstance(desc, dict) else None, (desc or {}).get("combine") if isinstance(desc, dict) else None])
         w = lambda **kw: dict(ident, step=len(trace), trace=trace[-10:], **kw)
         # ---------------- cross references, always
+        if name.startswith("detached.") and exc is None and H.entered and isinstance(desc, dict) and desc.get("what") == ["*=-1"]:
+            # C01's recorded mechanism: the stoichiometry of a reaction outside the model is edited while an open context
+            # still holds relative undo entries for it
+            st.setdefault("detached_rescaled", []).append(len(H.entered))
+        if name == "ctx.exit" and isinstance(desc, dict):
+            left = desc.get("depth", 0) + 1
+            if any(d >= left for d in st.get("detached_rescaled", [])):
+                st["detached_taint"] = True
+            st["detached_rescaled"] = [d for d in st.get("detached_rescaled", []) if d <= desc.get("depth", 0)]
         if name in ("manipulation.rename_genes", "manipulation.remove_genes"):
             # C03's recorded mechanism needs one of these in the history: a renamed / removed gene object that a
             # reaction outside the model still carries; when the names coincide again the association looks alive
@@ -197,6 +206,8 @@ def run_case(base, case, acc):
             key = f"C02/xref/{cls}/{name}"
             if cls == "lists-reaction-that-is-not-in-the-model" and all(dangling_is_outside_model(model, e, st["ever"], st.get("gene_ops_seen", False)) for e in xe if "dangling" in e) and all("dangling" in e for e in xe):
                 key = "C02/xref/metabolite-or-gene-lists-a-reaction-outside-the-model"
+            if st.get("detached_taint"):
+                key = "C02/xref/after-leaving-a-block-in-which-a-detached-reaction-was-rescaled"
             if st.get("exit_failed_known"):
                 # the exit itself (or an earlier, inner one) raised (recorded optlang mechanism of C01/C03): the undo
                 # entries behind the failing one never ran, the model is left half undone
